@@ -53,6 +53,15 @@ func body(sc scen.Scenario) func(x *vsched.Exec) {
 		for _, m := range scen.CheckHeld(nd) {
 			x.Fail("block-modified-after-ProcessBlock-returned", m)
 		}
+		// progress oracle for the goroutines parked in Chain.BlockWaiter: nothing can run any more, so a waiter that
+		// has not delivered by now never will
+		lost, early := scen.CheckWaiters(nd, scen.MaxHeight(), func(ch <-chan struct{}, _ bool) bool { return len(ch) > 0 })
+		for _, m := range lost {
+			x.Fail("blockwaiter-never-returns-although-height-reached", m)
+		}
+		for _, m := range early {
+			x.Fail("blockwaiter-returned-before-height-reached", m)
+		}
 		name := scen.BestName(nd)
 		var rs []string
 		for _, r := range results {
@@ -84,7 +93,11 @@ func main() {
 				exhaustive = false
 				break
 			}
-			cfg := vsched.Config{Name: sc.Name, Bound: b, Stall: 120 * time.Second, MaxExec: run.Pick(1500, 60000), Deadline: run.DeadlineIn(time.Duration(run.Pick(60, 240)) * time.Second)}
+			maxExec := run.Pick(1500, 60000)
+			if !thorough && sc.QuickCap > 0 {
+				maxExec = sc.QuickCap
+			}
+			cfg := vsched.Config{Name: sc.Name, Bound: b, Stall: 120 * time.Second, MaxExec: maxExec, Deadline: run.DeadlineIn(time.Duration(run.Pick(60, 240)) * time.Second)}
 			st := vsched.Explore(cfg, body(sc))
 			if st.Infra != "" {
 				if st.StallReproduced {
@@ -125,8 +138,8 @@ func main() {
 	if b, err := os.ReadFile(ev.Root() + "/.build/c37/sites.json"); err == nil {
 		run.Set("rewritten_sites", string(b))
 	}
-	run.Set("rule", "for each scenario every schedule with at most preemption_bound preemptions at lock / channel / select / go granularity is executed on the real Chain+Casper+TxPool (internal goroutines scheduled like any other); verdict per execution: every harness call returned, no deadlock, no panic; states = distinct observed outcomes (final best block and per-call results), transitions = scheduling decisions")
-	run.Assume("protocol/*.go and protocol/casper/*.go rewritten mechanically at check time (see rewritten_sites); locks inside leaf utilities (caches, store, dispatcher) stay real because they never block while held; unsynchronised memory accesses are not visible to this engine")
+	run.Set("rule", "for each scenario every schedule with at most preemption_bound preemptions at lock / channel / select / go granularity is executed on the real Chain+Casper+TxPool (internal goroutines scheduled like any other); verdict per execution: every harness call returned, no deadlock, no panic, and when nothing can run any more every goroutine parked in Chain.BlockWaiter(h) (scenario families S9/S10: every ordered list of 2 (thorough 3) waiter heights from {next, next+1, far} parked before the blocks / the vote, one more registered meanwhile) has delivered if and only if allowed: delivered when final best height >= h, never for a height no delivered block has; states = distinct observed outcomes (final best block and per-call results), transitions = scheduling decisions")
+	run.Assume("protocol/*.go and protocol/casper/*.go rewritten mechanically at check time (see rewritten_sites); locks inside leaf utilities (caches, store, dispatcher) stay real because they never block while held; unsynchronised memory accesses are not visible to this engine; sync.Cond is modelled with FIFO wake-up order (the runtime's notify list) and Signal/Broadcast are performed under the caller's lock; quick tier caps each S9/S10 layout at 80 schedules per preemption bound")
 	run.Finish()
 }
 
@@ -174,6 +187,16 @@ func racePass(run *ev.Run) {
 	for _, l := range strings.Split(text, "\n") {
 		if strings.HasPrefix(l, "RACEPASS-HELD-BLOCK-MODIFIED") {
 			run.Violation("block-modified-after-ProcessBlock-returned", "free-running pass: "+strings.TrimPrefix(l, "RACEPASS-HELD-BLOCK-MODIFIED "), map[string]interface{}{"line": l})
+			break
+		}
+	}
+	for _, l := range strings.Split(text, "\n") {
+		if strings.HasPrefix(l, "RACEPASS-WAITER") {
+			key := "blockwaiter-never-returns-although-height-reached"
+			if strings.Contains(l, "delivered although no block") {
+				key = "blockwaiter-returned-before-height-reached"
+			}
+			run.Violation(key, "free-running pass (30 s watchdog): "+strings.TrimPrefix(l, "RACEPASS-WAITER "), map[string]interface{}{"line": l})
 			break
 		}
 	}
